@@ -149,6 +149,16 @@ func NewReceiver(p protos.P) erpc.Message {
 	return m
 }
 
+// ResetReceiver prepares a used receiver for the next frame the way a session recycles its input message.
+func ResetReceiver(m erpc.Message, p protos.P) {
+	m.Reset()
+	if p.Struct {
+		m.SetNewBody(func(erpc.Header) interface{} { return &TStruct{} })
+	} else {
+		m.SetNewBody(func(erpc.Header) interface{} { return new([]byte) })
+	}
+}
+
 // Extract reads a received message back into a spec.
 func Extract(m erpc.Message, p protos.P) Spec {
 	s := Spec{Seq: m.Seq(), Mtype: m.Mtype(), Method: m.ServiceMethod(), Codec: m.BodyCodec()}
